@@ -243,7 +243,7 @@ var (
 func genHTTP(r *lib.Rng) Item {
 	p := httpPaths[r.Intn(len(httpPaths))]
 	m := httpMethods[r.Intn(len(httpMethods))]
-	if r.Chance(1, 2) {
+	if r.Chance(2, 3) {
 		// bias towards the combinations that are routed
 		switch {
 		case p == "/api/destinations" || p == "/api/streams":
